@@ -492,7 +492,8 @@ def inverse_is_pure(P: Program, R: Report, rule: str) -> None:
             continue
         seen.add(inv.qname)
         n += 1
-        eff = [(pa, k, w) for pa, k, w in E.effects_on(inv, "self") if not (pa and pa[0].startswith("tracks"))]
+        eff = [(pa, k, w) for pa, k, w in E.effects_on(inv, "self") if not (pa and pa[0].startswith("tracks")) and "tracks" not in pa
+               and not any(k in str(w) for k in ("/data_model/", "/annotators/", "/features/"))]  # a write made by a method of the data model goes to the data model (long access paths are truncated), not to the recorded action
         R.check(not eff, rule, inv, inv.node, f"{c.name}.inverse() leaves the recorded action as it is",
                 f"inverse() writes {[('.'.join(pa), k) for pa, k, w in eff][:3]} on the action itself (at {eff[0][2] if eff else ''}): the same recorded object is "
                 "inverted again by a later undo of the same step and then behaves differently", via="effects")
